@@ -22,7 +22,7 @@ out = out[:a] + part('s0_status.md') + '\n' + out[b:]
 # contents list
 out = out.replace('3. Per-property designs C01 … C20\n', '3. Per-property designs C01 … C20\n3A. As built: deviations and measured sizes\n')
 out = out.replace('4. Defects already visible on the pinned tree, and how they will be handled', '4. What the checks found on the pinned tree, and what was done about it')
-out = out.replace('7. Detection demonstrations (planned property-breaking changes)', '7. Detection demonstrations: seeded property-breaking changes and which checks catch them\n7A. Coverage audit of the checks against the statements\n7B. Second audit: routes, environments, printing versus answering, handles\n7C. Mechanical mutation campaign')
+out = out.replace('7. Detection demonstrations (planned property-breaking changes)', '7. Detection demonstrations: seeded property-breaking changes and which checks catch them\n7A. Coverage audit of the checks against the statements\n7B. Second audit: routes, environments, printing versus answering, handles\n7C. Third audit: the lessons of eleven rounds applied to every property\n7D. Mechanical mutation campaign')
 # replace sub-sections
 for name, start, end in [
     ('s21.md', r'^### 2\.1 ', r'^### 2\.2 '),
@@ -52,7 +52,12 @@ for d in sorted(glob.glob(os.path.join(ROOT, 'seeded', '*'))):
         continue
     summ = (m.get('summary') or '').replace('\n', ' ').replace('|', '\\|')
     needs = (m.get('needs') or '').replace('\n', ' ').replace('|', '\\|')
-    det = (m.get('detection') or '').replace('\n', ' ').replace('|', '\\|')
+    det = (m.get('detection') or '')
+    if m.get('rebased'):
+        det += ' [' + m['rebased'] + ']'
+    if m.get('retired'):
+        det += ' [RETIRED: ' + m['retired'] + ']'
+    det = det.replace('\n', ' ').replace('|', '\\|')
     rows.append('| `%s` | %s | %s | %s | %s |' % (os.path.basename(d), m.get('breaks_property', '?'), summ[:400], needs[:300], det))
 out += part('s7_head.md') + '\n'.join(rows) + '\n' + part('s7_tail.md')
 # mutation campaign summary
